@@ -1347,4 +1347,121 @@ theorem loadBody_inside (o : Obj) (c : Cls) (enc : Enc) (isLazy : Bool) (hdr : B
   · intro j h
     rw [p12 j h, p2]
 
+/-! ## the same ladder with an address translation table
+
+`cont` is the container stream's content, `tr` the translation table, `img` the plain image.
+`RangeRep cont tr img off n` : the range `[off, off+n)` of `img` sits, translated, in `cont`.
+With `tr = []` and `cont = img` everything below specialises to the plain lemmas above. -/
+
+/-- the byte range `[off, off+n)` of the plain image is *represented* in the container: the
+    translation of `off` is a position of the container at which the same `n` bytes sit -/
+def RangeRep (cont : Bytes) (tr : List Trans) (img : Bytes) (off n : Nat) : Prop :=
+  0 ≤ trApply tr (Int.ofNat off) ∧
+  (trApply tr (Int.ofNat off)).toNat + n ≤ cont.length ∧
+  off + n ≤ img.length ∧
+  slice cont (trApply tr (Int.ofNat off)).toNat n = slice img off n
+
+theorem rangeRep_nil (img : Bytes) (off n : Nat) (h : off + n ≤ img.length) : RangeRep img [] img off n := by
+  refine ⟨by simp [trApply], by simpa [trApply] using h, h, by simp [trApply]⟩
+
+theorem slice_prefix (b b' : Bytes) (p q n m : Nat) (h : slice b p n = slice b' q n) (hm : m ≤ n) :
+    slice b p m = slice b' q m := by
+  have e : ∀ (x : Bytes) (r : Nat), slice x r m = (slice x r n).take m := by
+    intro x r; unfold slice; rw [List.take_take]; congr 1; omega
+  rw [e b p, e b' q, h]
+
+theorem RangeRep.prefix {cont : Bytes} {tr : List Trans} {img : Bytes} {off n : Nat}
+    (h : RangeRep cont tr img off n) (m : Nat) (hm : m ≤ n) : RangeRep cont tr img off m :=
+  ⟨h.1, by have := h.2.1; omega, by have := h.2.2.1; omega, slice_prefix _ _ _ _ _ _ h.2.2.2 hm⟩
+
+/-- `stream_size` as `section_impl::load` / `segment_impl::load` compute it -/
+def ssOf (tr : List Trans) (clen : Nat) : BitVec 64 :=
+  match tr with
+  | [] => BitVec.ofNat 64 clen
+  | _ :: _ => u64max
+
+theorem hdrRead_rep (tr : List Trans) (st : IStream) (he : st.eof = false) (hf : st.fail = false)
+    (img : Bytes) (k n : Nat) (hrep : RangeRep st.data tr img k n) :
+    hdrRead tr st (Int.ofNat k) n =
+      ({ st with pos := (trApply tr (Int.ofNat k)).toNat + n, gcount := n }, slice img k n,
+       ssOf tr st.data.length) := by
+  obtain ⟨h0, h1, h2, h3⟩ := hrep
+  cases tr with
+  | nil =>
+    have e : trApply [] (Int.ofNat k) = Int.ofNat k := rfl
+    have e2 : (Int.ofNat k).toNat = k := rfl
+    rw [e, e2] at h1 h3
+    rw [hdrRead_inside st he hf k n h1, e, h3]
+    rfl
+  | cons a l =>
+    have hss : streamSizeOf (a :: l) st = (st, u64max) := rfl
+    unfold hdrRead
+    rw [hss]
+    simp only []
+    rw [IStream.seekg_ok st hf _ h0 (by omega),
+      IStream.read_ok { st with pos := (trApply (a :: l) (Int.ofNat k)).toNat, eof := false } rfl hf n h1]
+    simp only [h3, ssOf]
+    cases st; simp_all
+
+theorem secOff_toNat (tr : List Trans) (offset : BitVec 64) (h63 : offset.toNat < 9223372036854775808)
+    (h0 : 0 ≤ trApply tr (Int.ofNat offset.toNat))
+    (hlt : (trApply tr (Int.ofNat offset.toNat)).toNat < 9223372036854775808) :
+    (secOff tr offset).toNat = (trApply tr (Int.ofNat offset.toNat)).toNat := by
+  unfold secOff
+  rw [toInt_of_lt offset h63, BitVec.toNat_ofInt]
+  simp only [Nat.reducePow, Int.reducePow, Int.ofNat_eq_natCast] at *
+  omega
+
+theorem ult_max_false (x : BitVec 64) : BitVec.ult u64max x = false := by
+  have ho := x.isLt
+  simp only [Nat.reducePow] at ho
+  show BitVec.ult 18446744073709551615#64 x = false
+  simp only [BitVec.ult, BitVec.toNat_ofNat, Nat.reducePow, Nat.reduceMod, decide_eq_false_iff_not]; omega
+
+theorem ult_max_sub_false (toff size : BitVec 64) (h : toff.toNat + size.toNat < 9223372036854775808) :
+    BitVec.ult (u64max - toff) size = false := by
+  show BitVec.ult (18446744073709551615#64 - toff) size = false
+  simp only [BitVec.ult, decide_eq_false_iff_not]
+  bv_omega
+
+theorem guards_rep (tr : List Trans) (clen : Nat) (toff size : BitVec 64) (h63 : clen < 9223372036854775808)
+    (h : toff.toNat + size.toNat ≤ clen) :
+    BitVec.ult (ssOf tr clen) toff = false ∧
+    (BitVec.ult (ssOf tr clen) size || BitVec.ult (ssOf tr clen - toff) size) = false ∧
+    BitVec.ult (18446744073709551615#64 - BitVec.signExtend 64 1#32) size = false := by
+  have g := guards_inside toff size clen h63 h
+  cases tr with
+  | nil => exact g
+  | cons a l =>
+    refine ⟨ult_max_false toff, ?_, g.2.2⟩
+    show (BitVec.ult u64max size || BitVec.ult (u64max - toff) size) = false
+    rw [ult_max_false, ult_max_sub_false toff size (by omega)]
+    rfl
+
+/-- the isolated data read at the translated position delivers the plain bytes -/
+theorem isolatedRead_rep (tr : List Trans) (st : IStream) (img : Bytes) (offset size : BitVec 64)
+    (h63c : st.data.length < 9223372036854775808) (h63i : img.length < 9223372036854775808)
+    (hrep : RangeRep st.data tr img offset.toNat size.toNat) :
+    isolatedRead st (secOff tr offset) size =
+      ({ st with pos := (secOff tr offset).toNat + size.toNat, gcount := size.toNat },
+       slice img offset.toNat size.toNat, true) ∧
+    (secOff tr offset).toNat + size.toNat ≤ st.data.length := by
+  obtain ⟨h0, h1, h2, h3⟩ := hrep
+  have hto := secOff_toNat tr offset (by omega) h0 (by omega)
+  rw [isolatedRead_ok st (secOff tr offset) size (by rw [hto]; exact h1) h63c, hto, h3]
+  exact ⟨rfl, h1⟩
+
+theorem secOutcome_rep (c : Cls) (tr : List Trans) (st : IStream) (img : Bytes) (stype : BitVec 32)
+    (size offset : BitVec 64) (h63c : st.data.length < 9223372036854775808)
+    (h63i : img.length < 9223372036854775808) (hty : isNullOrNobitsTy stype = false)
+    (hrep : RangeRep st.data tr img offset.toNat size.toNat) :
+    secOutcome c tr st stype size offset (ssOf tr st.data.length) true =
+      if size = 0 then .loadedEmpty else .loaded (slice img offset.toNat size.toNat) := by
+  obtain ⟨hir, hle⟩ := isolatedRead_rep tr st img offset size h63c h63i hrep
+  have g := guards_rep tr st.data.length (secOff tr offset) size h63c hle
+  unfold secOutcome
+  simp only [sec32_load_data_off_gt, sec64_load_data_off_gt, sec32_load_data_size_gt,
+    sec64_load_data_size_gt, sec64_load_data_sizet, g.1, g.2.1, g.2.2, hty, hir]
+  cases c <;> simp
+
 end ElfioVerif
